@@ -67,6 +67,13 @@ func c08Gen(seed int64, idx int) c08Spec {
 	sp.Turn = []string{"healthy", "refusing", "stopped"}[r.Intn(3)]
 	sp.Second = sp.RO != "lock_wait" && r.Intn(3) == 0
 	sp.SSFail = stuck && (idx/8)%2 == 1
+	if idx%16 == 9 {
+		// a replica is unreachable at first (the postponement timer is armed) and refuses / has stopped replicating eight
+		// seconds later, well inside the delay: from then on nothing justifies waiting
+		sp.Role, sp.SemiSync, sp.NoFence, sp.N, sp.W, sp.RO, sp.HealS, sp.Second, sp.SSFail = "master", true, false, 3, 1, "ok", 8, false, false
+		sp.Repl = []string{"timing_out", []string{"stopped", "timing_out"}[(idx/16)%2]}
+		sp.Turn = []string{"refusing", "stopped"}[(idx/32)%2]
+	}
 	return sp
 }
 
